@@ -3,6 +3,7 @@
   The model sorts (distance², index) pairs; the k-d tree of the implementation is trusted to return "the k nearest"
   (ties in distance excluded from the comparison, as the property states).
 -/
+import VerdeModel.Gen.DistMask
 import VerdeModel.Gen.Neighbors
 import VerdeModel.Model.Neighbors
 import VerdeModel.Lemmas.MinMax
@@ -201,5 +202,90 @@ theorem gen_knn_predict_eq_model (es ns data : List Rat) (k : Nat) (red : Red) (
     intro q _
     simp only [Function.comp, List.map_map]
     rfl
+
+/-! ## `distance_mask` as regenerated from the source (Gen/DistMask.lean) -/
+
+/-- The two coordinate arrays after the optional projection. -/
+def projected2 (proj : Option Proj) (e n : List Rat) : List Rat × List Rat :=
+  match proj with
+  | some p => (((e.zip n).map fun q => (p.apply q).1), ((e.zip n).map fun q => (p.apply q).2))
+  | none => (e, n)
+
+/-- What `kdtree(D).query(Q)[0]` promises: one value per query point, the Euclidean distance to the nearest data point (the square root of the
+    smallest squared distance the model finds). -/
+def NearestDistance (nearest : List (List Rat) → List (List Rat) → List ℝ) : Prop :=
+  ∀ (D Q : List (List Rat)), (nearest D Q).length = ((Q.getD 0 []).zip (Q.getD 1 [])).length ∧
+    ∀ (i : Nat) (q : Rat × Rat) (d2 : Rat) (j : Nat), ((Q.getD 0 []).zip (Q.getD 1 []))[i]? = some q →
+      (kNearest (D.getD 0 []) (D.getD 1 []) q 1).head? = some (d2, j) → (nearest D Q)[i]? = some (Real.sqrt (d2 : ℝ))
+
+theorem decide_dist (d2 m : Rat) (h0 : 0 ≤ d2) :
+    (@decide (Real.sqrt (d2 : ℝ) ≤ (m : ℝ)) (Classical.propDecidable _)) = (decide (0 ≤ m) && decide (d2 ≤ m * m)) := by
+  by_cases hm : 0 ≤ m
+  · have hm' : (0 : ℝ) ≤ (m : ℝ) := by exact_mod_cast hm
+    have := mask_iff (d2 : ℝ) (m : ℝ) hm'
+    have hc : ((d2 : ℝ) ≤ (m : ℝ) * (m : ℝ)) ↔ d2 ≤ m * m := by exact_mod_cast Iff.rfl
+    simp only [hm, decide_true, Bool.true_and, decide_eq_decide]
+    rw [this, hc]
+  · have hneg : (m : ℝ) < 0 := by exact_mod_cast not_le.mp hm
+    have : ¬ Real.sqrt (d2 : ℝ) ≤ (m : ℝ) := by
+      have := Real.sqrt_nonneg (d2 : ℝ)
+      linarith
+    simp [hm, this]
+
+theorem head_some_of_nonempty (es ns : List Rat) (q : Rat × Rat) (h : 0 < (es.zip ns).length) :
+    ∃ d2 j, (kNearest es ns q 1).head? = some (d2, j) := by
+  have hl := (knearest_spec es ns q 1).1
+  have : 0 < (kNearest es ns q 1).length := by rw [hl]; omega
+  match hk : kNearest es ns q 1 with
+  | [] => rw [hk] at this; simp at this
+  | (d2, j) :: _ => exact ⟨d2, j, rfl⟩
+
+theorem sqDist_nonneg' (a b c d : Rat) : 0 ≤ sqDist a b c d := by
+  unfold sqDist; nlinarith [mul_self_nonneg (a - c), mul_self_nonneg (b - d)]
+
+theorem head_nonneg (es ns : List Rat) (q : Rat × Rat) (d2 : Rat) (j : Nat) (h : (kNearest es ns q 1).head? = some (d2, j)) : 0 ≤ d2 := by
+  have hm : (d2, j) ∈ sortedByDist es ns q := by
+    have : (d2, j) ∈ kNearest es ns q 1 := List.mem_of_mem_head? h
+    exact List.mem_of_mem_take this
+  obtain ⟨p, _, hp⟩ := entry_is_distance es ns q (d2, j) hm
+  simp only at hp
+  rw [hp]; exact sqDist_nonneg' _ _ _ _
+
+theorem mask_core (nearest : List (List Rat) → List (List Rat) → List ℝ) (hc : NearestDistance nearest) (es ns qe qn : List Rat) (m : Rat)
+    (hne : 0 < (es.zip ns).length) :
+    (nearest [es, ns] [qe, qn]).map (fun d => @decide (d ≤ (m : ℝ)) (Classical.propDecidable _)) = distanceMask es ns m (qe.zip qn) := by
+  obtain ⟨hlen, hval⟩ := hc [es, ns] [qe, qn]
+  simp only [List.getD_cons_zero, List.getD_cons_succ] at hlen hval
+  apply List.ext_getElem?
+  intro i
+  unfold distanceMask
+  simp only [List.getElem?_map]
+  by_cases hi : i < (qe.zip qn).length
+  · obtain ⟨d2, j, hh⟩ := head_some_of_nonempty es ns (qe.zip qn)[i] hne
+    have hq : (qe.zip qn)[i]? = some (qe.zip qn)[i] := List.getElem?_eq_getElem hi
+    rw [hval i _ d2 j hq hh, hq]
+    simp only [Option.map_some, hh]
+    rw [decide_dist d2 m (head_nonneg es ns _ d2 j hh)]
+  · have h1 : (qe.zip qn)[i]? = none := List.getElem?_eq_none (by omega)
+    have h2 : (nearest [es, ns] [qe, qn])[i]? = none := List.getElem?_eq_none (by omega)
+    rw [h1, h2]; rfl
+
+/-- **Bridge.**  `distance_mask` as regenerated from the source equals the model: true exactly where the nearest (projected) data point is no
+    farther than `maxdist` — for every tree that returns nearest distances, every projection and at least one data point. -/
+theorem gen_distance_mask_eq_model (nearest : List (List Rat) → List (List Rat) → List ℝ) (hc : NearestDistance nearest)
+    (es ns qe qn : List Rat) (drest qrest : List (List Rat)) (m : Rat) (proj : Option Proj)
+    (hne : 0 < ((projected2 proj es ns).1.zip (projected2 proj es ns).2).length) :
+    Gen.distanceMask nearest (es :: ns :: drest) (qe :: qn :: qrest) (m : ℝ) (proj.map Proj.apply)
+      = distanceMask (projected2 proj es ns).1 (projected2 proj es ns).2 m ((projected2 proj qe qn).1.zip (projected2 proj qe qn).2) := by
+  unfold Gen.distanceMask
+  cases proj with
+  | none =>
+    simp only [projected2] at hne ⊢
+    simp only [Option.map_none, List.take_succ_cons, List.take_zero]
+    exact mask_core nearest hc es ns qe qn m hne
+  | some p =>
+    simp only [projected2] at hne ⊢
+    simp only [Option.map_some, List.take_succ_cons, List.take_zero, applyProjTbl, List.getD_cons_zero, List.getD_cons_succ]
+    exact mask_core nearest hc _ _ _ _ m hne
 
 end Verde.C15
